@@ -58,7 +58,19 @@ def run(ctx) -> list[Inst]:
         if find_ctor(m, 'malParser') is not None:
             f = m
     if f is None:
-        raise AnalysisError('MalCompiler: construction of malParser not found in any method (anchor vanished)')
+        # the parser is built somewhere else in the package (a helper class, a chain of lazily built stages): the
+        # single-function idioms below do not apply.  Nothing is decided for the listener clauses - unless no parser
+        # is constructed anywhere at all, which is a vanished anchor.
+        elsewhere = [g for g in prog.all_funcs() if find_ctor(g, 'malParser') is not None]
+        if not elsewhere:
+            raise AnalysisError('malParser is not constructed anywhere in the package (anchor vanished)')
+        g = elsewhere[0]
+        insts.append(Inst(RULE, compile_f.short, '(a) syntax errors make compile() fail', 'unproven',
+                          msg=(f'the parser is constructed in {g.short}, outside MalCompiler: the listener / strategy '
+                               f'idioms are decided for one function only'),
+                          file=g.module.relpath, line=g.node.lineno, props=props))
+        insts += _lookups(ctx)
+        return insts
     cfg = ctx.cfg(f)
     rel = f.module.relpath
     pm = {}
